@@ -460,6 +460,11 @@ class Interp:
                 r = h(self, st, v, fr)
                 if r is not None:
                     return r
+            h = self.hooks.get('fork')
+            if h is not None and v.name.startswith('tolerance test'):
+                r = h(self, st, v, fr)            # a predicate on data whose outcome is not determined by the symbolic state: both outcomes are explored
+                if r is not None:
+                    return r
             raise AnalysisError(f'{fr.mod.where(st)}: branch on an opaque condition `{ast.unparse(st.test)[:80]}`')
         if isinstance(v, Arr):
             return True
@@ -1309,6 +1314,19 @@ class Interp:
         def seq(v):
             # an object whose class defines __iter__ over a stored sequence iterates that sequence
             return list(v.attrs['__iter__']) if isinstance(v, Obj) and isinstance(v.attrs.get('__iter__'), (list, tuple)) else v
+        if nm in ('allclose', 'isclose', 'array_equal', 'array_equiv') and len(args) >= 2:
+            if args[0] is args[1]:
+                return True
+            ca, cb = (concrete(a_) if isinstance(a_, (Node, int, Fraction)) and not isinstance(a_, bool) else None for a_ in args[:2])
+            if ca is not None and cb is not None and ca == cb:
+                return True
+            return Opaque('tolerance test ' + nm)
+        if nm == 'shape' and len(args) == 1:
+            a_ = args[0]
+            if isinstance(a_, Vec): return (len(a_),)
+            if isinstance(a_, Arr) and a_.shape is not None: return tuple(a_.shape)
+            if isinstance(a_, (Node, int, Fraction, float)): return ()
+            if isinstance(a_, (list, tuple)): return (len(a_),)
         if nm == 'cumsum' and args and isinstance(args[0], (list, tuple)):
             out = []; acc = 0
             for v in args[0]:
